@@ -160,13 +160,13 @@ theorem blocksF_specImportStd (t : Tree) (pc : Ann) (l : List Node) (x : Nat) :
     · rintro (h | h) <;> simp [h]
 
 /-- nodes whose block is not known never take the new change: the import commutes with dropping them -/
-theorem specImportKids_filter {t : Tree} (pc : Ann) (keep : Node → Bool)
-    (hk : ∀ (c : Ann) (k1 k2 : List Node), keep (.mk c k1) = keep (.mk c k2))
-    (hdead : ∀ c kids, keep (.mk c kids) = false → anc t c.blk pc.blk = false) :
-    ∀ (l : List Node), specImportKids t pc (l.filter keep) = (specImportKids t pc l).map (·.filter keep)
-  | [] => by simp [specImportKids]
-  | .mk c kids :: rest => by
-    have ih := specImportKids_filter pc keep hk hdead rest
+theorem specImportKids_filter' {t : Tree} (pc : Ann) (keep : Node → Bool)
+    (hk : ∀ (c : Ann) (k1 k2 : List Node), keep (.mk c k1) = keep (.mk c k2)) :
+    ∀ (l : List Node), (∀ r ∈ l, keep r = false → anc t r.ann.blk pc.blk = false) →
+      specImportKids t pc (l.filter keep) = (specImportKids t pc l).map (·.filter keep)
+  | [], _ => by simp [specImportKids]
+  | .mk c kids :: rest, hdead => by
+    have ih := specImportKids_filter' pc keep hk rest (fun r hr => hdead r (by simp [hr]))
     by_cases hkeep : keep (.mk c kids) = true
     · simp only [List.filter, hkeep]
       rw [specImportKids, specImportKids]
@@ -183,7 +183,8 @@ theorem specImportKids_filter {t : Tree} (pc : Ann) (keep : Node → Bool)
     · simp only [Bool.not_eq_true] at hkeep
       simp only [List.filter, hkeep]
       rw [ih, specImportKids]
-      have := hdead c kids hkeep
+      have := hdead (.mk c kids) (by simp) hkeep
+      simp only [Node.ann] at this
       simp only [this, Bool.false_eq_true, and_false, if_false]
       cases specImportKids t pc rest <;> simp [List.filter, hkeep]
 
